@@ -6,6 +6,7 @@ package main
 import (
 	"encoding/json"
 	"fmt"
+	"go/token"
 	"go/types"
 	"math"
 	"net"
@@ -15,6 +16,7 @@ import (
 	"strconv"
 	"strings"
 	"time"
+	"unicode"
 	"unicode/utf8"
 
 	"golang.org/x/tools/go/ssa"
@@ -547,11 +549,119 @@ func init() {
 		}
 		return strJoin(ps, strArg(a[2]))
 	})
-	reg("strings.ToLower", func(in *Interp, fr *frame, a []Value) Value {
-		return mkStr(strings.ToLower(strArg(a[0]).mustConcrete()))
+	// ToLower / ToUpper: concrete runs go through the real function (length-changing special cases included);
+	// symbolic bytes are mapped as ASCII letters, a symbolic byte >= 0x80 ends the path as unsupported
+	caseMap := func(in *Interp, s Str, lower bool) Str {
+		if c, ok := s.Concrete(); ok {
+			if lower {
+				return mkStr(strings.ToLower(c))
+			}
+			return mkStr(strings.ToUpper(c))
+		}
+		var out Str
+		var run []byte
+		flush := func() {
+			if len(run) > 0 {
+				if lower {
+					out = strConcat(out, mkStr(strings.ToLower(string(run))))
+				} else {
+					out = strConcat(out, mkStr(strings.ToUpper(string(run))))
+				}
+				run = nil
+			}
+		}
+		for _, g := range s.norm().segs {
+			if g.A != nil {
+				flush()
+				out = strConcat(out, Str{segs: []Seg{g}}) // digits and signs
+				continue
+			}
+			for _, b := range g.B {
+				if b.S == nil {
+					run = append(run, b.C)
+					continue
+				}
+				flush()
+				if !in.br(BVUlt(b.S, BVC(8, 0x80))) {
+					panic(engineErr("ToLower/ToUpper on a symbolic non-ASCII byte"))
+				}
+				lo, hi, delta := byte('A'), byte('Z'), uint64(32)
+				if !lower {
+					lo, hi, delta = 'a', 'z', uint64(0xE0) // -32 mod 256
+				}
+				isL := And(BVUle(BVC(8, uint64(lo)), b.S), BVUle(b.S, BVC(8, uint64(hi))))
+				out = strConcat(out, strOfBytes([]SByte{{S: Ite(isL, BVAdd(b.S, BVC(8, delta)), b.S)}}))
+			}
+		}
+		flush()
+		return out
+	}
+	reg("strings.ToLower", func(in *Interp, fr *frame, a []Value) Value { return caseMap(in, strArg(a[0]), true) })
+	reg("strings.ToUpper", func(in *Interp, fr *frame, a []Value) Value { return caseMap(in, strArg(a[0]), false) })
+
+	// sort.Slice / sort.SliceStable: insertion sort through the caller's less (what package sort does for
+	// fewer than 12 elements); longer slices must be concrete enough for less to decide without forking
+	sortSlice := func(in *Interp, fr *frame, a []Value) Value {
+		itf, ok := a[0].(Iface)
+		if !ok || itf.T == nil {
+			in.tpanic("explicit", "sort.Slice: nil slice interface")
+		}
+		sl, _ := itf.V.([]Value)
+		less := func(i, j int) bool {
+			r := in.call(fr, 0, a[1], []Value{goInt(i), goInt(j)})
+			return in.brVal(r.(Bool))
+		}
+		for i := 1; i < len(sl); i++ {
+			for j := i; j > 0 && less(j, j-1); j-- {
+				sl[j], sl[j-1] = sl[j-1], sl[j]
+			}
+		}
+		return nil
+	}
+	reg("sort.Slice", sortSlice)
+	reg("sort.SliceStable", sortSlice)
+
+	// package bytes on []byte values: the string models on the same bytes
+	bstr := func(v Value) Str {
+		sl, _ := v.([]Value)
+		return valuesToStr(sl)
+	}
+	unb := func(s Str) Value { return bytesToValues(s.bytes()) }
+	reg("bytes.Equal", func(in *Interp, fr *frame, a []Value) Value { return in.strEq(bstr(a[0]), bstr(a[1])) })
+	reg("bytes.Index", func(in *Interp, fr *frame, a []Value) Value { return in.strIndex(bstr(a[0]), bstr(a[1]), false) })
+	reg("bytes.LastIndex", func(in *Interp, fr *frame, a []Value) Value { return in.strIndex(bstr(a[0]), bstr(a[1]), true) })
+	reg("bytes.Contains", func(in *Interp, fr *frame, a []Value) Value {
+		return intrinsics["strings.Contains"](in, fr, []Value{bstr(a[0]), bstr(a[1])})
 	})
-	reg("strings.ToUpper", func(in *Interp, fr *frame, a []Value) Value {
-		return mkStr(strings.ToUpper(strArg(a[0]).mustConcrete()))
+	reg("bytes.HasPrefix", func(in *Interp, fr *frame, a []Value) Value { return mkBool(in.strHasPrefix(bstr(a[0]), bstr(a[1]))) })
+	reg("bytes.HasSuffix", func(in *Interp, fr *frame, a []Value) Value {
+		return intrinsics["strings.HasSuffix"](in, fr, []Value{bstr(a[0]), bstr(a[1])})
+	})
+	reg("bytes.TrimSpace", func(in *Interp, fr *frame, a []Value) Value {
+		return unb(intrinsics["strings.TrimSpace"](in, fr, []Value{bstr(a[0])}).(Str))
+	})
+	reg("bytes.Replace", func(in *Interp, fr *frame, a []Value) Value {
+		n := asInt(a[3])
+		s, old, nw := bstr(a[0]), bstr(a[1]), bstr(a[2])
+		if n < 0 {
+			return unb(intrinsics["strings.ReplaceAll"](in, fr, []Value{s, old, nw}).(Str))
+		}
+		if ob := old.bytes(); len(ob) == 0 {
+			panic(engineErr("bytes.Replace with an empty old"))
+		}
+		parts := in.strSplit(s, old)
+		out := parts[0].(Str)
+		for i := 1; i < len(parts); i++ {
+			if i <= n {
+				out = strConcat(strConcat(out, nw), parts[i].(Str))
+			} else {
+				out = strConcat(strConcat(out, old), parts[i].(Str))
+			}
+		}
+		return unb(out)
+	})
+	reg("bytes.ReplaceAll", func(in *Interp, fr *frame, a []Value) Value {
+		return unb(intrinsics["strings.ReplaceAll"](in, fr, []Value{bstr(a[0]), bstr(a[1]), bstr(a[2])}).(Str))
 	})
 	reg("strings.Count", func(in *Interp, fr *frame, a []Value) Value {
 		s0, c0 := strArg(a[0]).Concrete()
@@ -677,6 +787,40 @@ func init() {
 		}
 		return in.ftoa(f, bits)
 	})
+	for _, n := range []string{"Index", "IndexByte", "HasPrefix", "HasSuffix", "TrimPrefix", "TrimSuffix"} {
+		if f, ok := intrinsics["strings."+n]; ok {
+			intrinsics["internal/stringslite."+n] = f
+		}
+	}
+	reg("internal/stringslite.Clone", func(in *Interp, fr *frame, a []Value) Value { return a[0] })
+	reg("strings.Clone", func(in *Interp, fr *frame, a []Value) Value { return a[0] })
+	// ---- unicode predicates and go/token name classes: native on concrete arguments ----
+	for name, f := range map[string]func(rune) bool{"unicode.IsUpper": unicode.IsUpper, "unicode.IsLower": unicode.IsLower, "unicode.IsLetter": unicode.IsLetter,
+		"unicode.IsDigit": unicode.IsDigit, "unicode.IsSpace": unicode.IsSpace, "unicode.IsPunct": unicode.IsPunct, "unicode.IsPrint": unicode.IsPrint,
+		"unicode.IsControl": unicode.IsControl, "unicode.IsNumber": unicode.IsNumber, "unicode.IsGraphic": unicode.IsGraphic} {
+		name, f := name, f
+		reg(name, func(in *Interp, fr *frame, a []Value) Value {
+			r := a[0].(Int)
+			if r.S != nil {
+				panic(engineErr(name + " of a symbolic rune"))
+			}
+			return mkBool(f(rune(int64(r.C))))
+		})
+	}
+	for name, f := range map[string]func(rune) rune{"unicode.ToLower": unicode.ToLower, "unicode.ToUpper": unicode.ToUpper, "unicode.ToTitle": unicode.ToTitle} {
+		name, f := name, f
+		reg(name, func(in *Interp, fr *frame, a []Value) Value {
+			r := a[0].(Int)
+			if r.S != nil {
+				panic(engineErr(name + " of a symbolic rune"))
+			}
+			return mkInt(types.Int32, int64(f(rune(int64(r.C)))))
+		})
+	}
+	reg("go/token.IsExported", func(in *Interp, fr *frame, a []Value) Value { return mkBool(token.IsExported(strArg(a[0]).mustConcrete())) })
+	reg("go/ast.IsExported", func(in *Interp, fr *frame, a []Value) Value { return mkBool(token.IsExported(strArg(a[0]).mustConcrete())) })
+	reg("go/token.IsIdentifier", func(in *Interp, fr *frame, a []Value) Value { return mkBool(token.IsIdentifier(strArg(a[0]).mustConcrete())) })
+	reg("go/token.IsKeyword", func(in *Interp, fr *frame, a []Value) Value { return mkBool(token.IsKeyword(strArg(a[0]).mustConcrete())) })
 	// ---- math (the bit-cast helpers go through unsafe pointers in the source) ----
 	reg("math.Abs", func(in *Interp, fr *frame, a []Value) Value {
 		f := a[0].(Float)
